@@ -127,7 +127,7 @@ func (c *Ctx) scanRoles() *scanRoles {
 			continue
 		}
 		g := m.cfgOf(u)
-		guards := guardsOf(info, g)
+		guards := c.classifierGuards(u, g)
 		_, ycalls := yieldCallsOf(info, u)
 		for _, yc := range ycalls {
 			yb, _ := blockOf(g, yc)
